@@ -13,9 +13,9 @@ class Variant(object):
     """One self-test variant of one file."""
 
     def __init__(self, name, kind, path, transform, expect=None, note='', also=()):
-        assert kind in ('break', 'neutral')
+        assert kind in ('break', 'neutral', 'repair')
         self.name = name
-        self.kind = kind          # 'break' must fire, 'neutral' must stay silent
+        self.kind = kind          # 'break' must fire, 'neutral' must stay silent, 'repair' must make a base finding (expect) disappear
         self.path = path
         self.transform = transform
         self.expect = expect      # substring expected in rule or construct of the new finding
